@@ -366,6 +366,36 @@ Proof.
     subst e. apply dec_enc_down.
   - (* Reopen *)
     cbn. now split.
+  - (* AdvanceFCntUp *)
+    pose proof Fd as F. rewrite Forall_forall in F.
+    apply andb_true_iff in Ho. destruct Ho as [Ho Hnf]. apply andb_true_iff in Ho. destruct Ho as [Ho Ha].
+    cbn [enc_store t_devs].
+    assert (K : forall x, In x (a_devs s) ->
+              ((cd_eui (enc_dev x) =? eui_to_int64 e)%Z && (cd_fup (enc_dev x) <=? accepted)) = ((rd_eui x =? e) && (rd_fup x <=? accepted))).
+    { intros x Hx. f_equal. revert x Hx. keyed F. apply zeq_eui; [|exact Ho]. now apply dev_ok_eui. }
+    rewrite (ex_key enc_dev _ (fun x => (rd_eui x =? e) && (rd_fup x <=? accepted))) by exact K.
+    destruct (existsb _ (a_devs s)); cbn [fst snd]; [|now split]. split.
+    + unfold st_devs, enc_store. cbn. f_equal. f_equal. apply (map_key enc_dev). intros x Hx. rewrite K by exact Hx.
+      destruct ((rd_eui x =? e) && (rd_fup x <=? accepted)); reflexivity.
+    + split; cbn; try assumption. apply Forall_map_if; [exact Fd|]. intros x Hx.
+      apply dev_ok_spec in Hx. apply dev_ok_spec. unfold upd_dev_state. cbn. apply N.ltb_lt in Hnf. tauto.
+  - (* NextFCntDn *)
+    pose proof Fd as F. rewrite Forall_forall in F.
+    change (t_devs (enc_store s)) with (map enc_dev (a_devs s)).
+    assert (K : forall x, In x (a_devs s) -> (cd_eui (enc_dev x) =? eui_to_int64 e)%Z = (rd_eui x =? e)).
+    { keyed F. apply zeq_eui; [|exact Ho]. now apply dev_ok_eui. }
+    rewrite (find_key enc_dev _ (fun x => rd_eui x =? e)) by exact K.
+    destruct (find _ (a_devs s)) as [d|] eqn:E; cbn [option_map fst snd]; [|now split].
+    apply find_some in E. destruct E as [E _]. pose proof (F d E) as Hd. apply dev_ok_spec in Hd.
+    split.
+    + f_equal.
+      * unfold st_devs, enc_store. cbn. f_equal. f_equal. apply (map_key enc_dev). intros x Hx. rewrite K by exact Hx.
+        destruct (rd_eui x =? e); reflexivity.
+      * f_equal. unfold enc_dev. cbn [cd_fdn]. destruct Hd as (_ & _ & _ & _ & _ & _ & _ & _ & Hfd & _).
+        assert (H1 : rd_fdn d < 65536) by exact Hfd. clear - H1. lia.
+    + split; cbn; try assumption. apply Forall_map_if; [exact Fd|]. intros x Hx.
+      apply dev_ok_spec in Hx. apply dev_ok_spec. unfold upd_dev_state. cbn.
+      assert (Hm : (rd_fdn x + 1) mod 65536 < 65536) by (apply N.mod_upper_bound; lia). tauto.
 Qed.
 
 Theorem refine_run : forall ops s, store_ok s -> forallb regop_ok ops = true ->
